@@ -73,6 +73,34 @@ func (r *ref) w(s string) {
 	r.sb.WriteString(s)
 }
 
+// gen: a generated callee with marker m whose children slot renders children().
+func (r *ref) gen(kind, m string, children func()) {
+	w := r.w
+	switch kind {
+	case "slot":
+		w("slot#" + m + "[")
+		children()
+		w("]")
+	case "ign":
+		w("ign#" + m + "[]")
+	case "twice":
+		w("twice#" + m + "[")
+		children()
+		children()
+		w("]")
+	case "pass":
+		w("pass#" + m + "[slot#" + m + ".i[")
+		children()
+		w("]]")
+	case "inner":
+		w("inner#" + m + "[slot#" + m + ".i[]]")
+	case "after":
+		w("after#" + m + "[")
+		children()
+		w("slot#" + m + ".i[]]")
+	}
+}
+
 // capture evaluates the block of t exactly once into a buffer of its own (a
 // callee that renders its children into its own writer) and returns what the
 // block rendered there.
@@ -162,6 +190,25 @@ func (r *ref) node(t T) {
 	case "fndrop":
 		r.capture(t)
 		w("drop#" + t.M + "[]")
+	// forwarding wrappers: the generated callee m.f sees exactly what the
+	// wrapper passed (its own children wrapped in w#m / unwrapped / nothing);
+	// whatever that callee calls without a block sees nothing.
+	case "fwdslot", "fwdinner", "fwdafter", "fwdtwice", "fwdign", "fwdpass":
+		r.gen(t.K[3:len(t.K)-1], t.M+".f", func() {
+			w("w#" + t.M + "[")
+			r.blk(t)
+			w("]")
+		})
+	case "fwdsame":
+		r.gen("after", t.M+".f", func() { r.blk(t) })
+	case "fwdnop":
+		r.gen("after", t.M+".f", func() {})
+	case "fwd2":
+		r.gen("after", t.M+".g.f", func() {
+			w("w#" + t.M + ".g[w1#" + t.M + "[")
+			r.blk(t)
+			w("]]")
+		})
 	case "capslot": // hand-written: captures a generated slot callee that is given the children
 		save := r.sb
 		r.sb = &strings.Builder{}
@@ -354,6 +401,7 @@ var representative = map[string]string{
 	"twice-": "slot-", "pass-": "slot-", "after-": "slot-", "legacy-": "slot-", "fnget-": "slot-", "once-": "slot-",
 	"flush-": "slot-", "inner-": "slot-", "ign-": "slot-", "fnign-": "slot-", "oncec-": "slot-", "join-": "slot-",
 	"fncap-": "slot-", "fncap2-": "slot-", "fndrop-": "slot-", "capslot-": "slot-", "capchain-": "slot-",
+	"fwdslot-": "slot-", "fwdinner-": "slot-", "fwdafter-": "slot-", "fwdtwice-": "slot-", "fwdign-": "slot-", "fwdpass-": "slot-", "fwdsame-": "slot-", "fwdnop-": "slot-", "fwd2-": "slot-",
 	"twice+": "slot+", "pass+": "slot+", "after+": "slot+", "inner+": "ign+",
 }
 
@@ -414,7 +462,11 @@ func tokMarker(t string) string {
 	if i < 0 || !strings.HasSuffix(t, "[") {
 		return ""
 	}
-	return strings.TrimSuffix(t[i+1:len(t)-1], ".i")
+	m := t[i+1 : len(t)-1]
+	if j := strings.IndexByte(m, '.'); j >= 0 { // 3.i, 3.f, 3.g.f.i ... belong to node 3
+		m = m[:j]
+	}
+	return m
 }
 
 // blameSlice keeps only the nodes named at the first divergence between the
@@ -475,8 +527,10 @@ func nontrivial(ts []T) bool {
 		}
 	}
 	walk(ts)
-	unconsumed := map[string]bool{"ign+": true, "inner+": true, "once+": true, "oncec+": true, "flush+": true, "join+": true, "fnign+": true, "fnget+": true, "fncap+": true, "fncap2+": true, "fndrop+": true, "capslot+": true, "capchain+": true}
-	slotBearing := map[string]bool{"slot-": true, "twice-": true, "pass-": true, "after-": true, "legacy-": true, "once-": true, "flush-": true, "fnget-": true, "fncap-": true, "fncap2-": true, "capslot-": true, "capchain-": true}
+	unconsumed := map[string]bool{"ign+": true, "inner+": true, "once+": true, "oncec+": true, "flush+": true, "join+": true, "fnign+": true, "fnget+": true, "fncap+": true, "fncap2+": true, "fndrop+": true, "capslot+": true, "capchain+": true,
+		"fwdinner+": true, "fwdign+": true, "fwdnop+": true, "fwdsame+": true, "fwdafter+": true, "fwd2+": true}
+	slotBearing := map[string]bool{"slot-": true, "twice-": true, "pass-": true, "after-": true, "legacy-": true, "once-": true, "flush-": true, "fnget-": true, "fncap-": true, "fncap2-": true, "capslot-": true, "capchain-": true,
+		"fwdslot-": true, "fwdafter-": true, "fwdtwice-": true, "fwdpass-": true, "fwdsame-": true, "fwd2-": true}
 	seen := false
 	for _, t := range flat {
 		if seen && slotBearing[t.K] {
@@ -534,8 +588,8 @@ func enumerate(n int, kinds []string) [][]T {
 // randomForest draws a tree emphasising an unconsumed block followed by a
 // slot-bearing sibling or descendant.
 func randomForest(r *rand.Rand, budget *int, depth int) []T {
-	leaky := []string{"once+", "once+", "flush+", "fnign+", "ign+", "inner+", "oncec+", "join+", "fnget+", "fncap+", "fncap2+", "fndrop+", "capslot+", "capchain+"}
-	slotty := []string{"slot-", "slot-", "twice-", "pass-", "after-", "legacy-", "once-", "flush-", "fnget-", "fncap-", "capchain-"}
+	leaky := []string{"once+", "once+", "flush+", "fnign+", "ign+", "inner+", "oncec+", "join+", "fnget+", "fncap+", "fncap2+", "fndrop+", "capslot+", "capchain+", "fwdinner+", "fwdafter+", "fwdsame+", "fwdnop+", "fwd2+", "fwdign+"}
+	slotty := []string{"slot-", "slot-", "twice-", "pass-", "after-", "legacy-", "once-", "flush-", "fnget-", "fncap-", "capchain-", "fwdslot-", "fwdafter-", "fwdinner-"}
 	var out []T
 	n := 1 + r.Intn(4)
 	for i := 0; i < n && *budget > 0; i++ {
@@ -885,12 +939,26 @@ func dbg(f string, a ...any) {
 
 // ---------------------------------------------------------------- check
 
+// threeNodeKinds: the kinds of the exhaustive 3-node forests in the quick
+// tier: everything except the forwarders whose generated callee only repeats
+// what fwdinner / fwdafter / fwdsame / fwdnop / fwd2 already exercise.
+func threeNodeKinds() []string {
+	skip := map[string]bool{"fwdslot": true, "fwdtwice": true, "fwdign": true, "fwdpass": true}
+	var ks []string
+	for _, k := range allKinds {
+		if !skip[k[:len(k)-1]] {
+			ks = append(ks, k)
+		}
+	}
+	return ks
+}
+
 // reducedKinds is the kind set used for the largest exhaustive size.
-var reducedKinds = []string{"slot-", "slot+", "ign+", "twice-", "twice+", "pass-", "after+", "inner+", "once-", "once+", "oncec+", "flush-", "flush+", "fnign+", "fnget-", "fnget+", "join+", "fnwith+", "fncap+", "capchain+"}
+var reducedKinds = []string{"slot-", "slot+", "ign+", "twice-", "twice+", "pass-", "after+", "inner+", "once-", "once+", "oncec+", "flush-", "flush+", "fnign+", "fnget-", "fnget+", "join+", "fnwith+", "fncap+", "capchain+", "fwdinner+", "fwdsame+"}
 
 // Run is the C13 check.
 func Run(c *core.Ctx) {
-	c.Rule = "cases = call trees (forests of calls; kinds: generated callees slot/ign/twice/pass/inner/after and legacy call syntax, hand-written OnceHandle.Once, Once(WithComponent), templ.Flush, templ.Join, function components reading/ignoring children, function components capturing their children into a buffer of their own (written once, twice, discarded; hand-written and generated capture layers around a slot callee), WithChildren from code; each with and without a block) rendered by one compiled interpreter whose dispatcher is expanded inline for 3 levels; oracle = reference call-tree semantics, exact marker structure on the HTML5 token stream; exhaustive part: every forest with <=N nodes over all kinds (N=3) and over a reduced kind set (N=4, thorough); non-trivial = tree with a block given to a wrapper/ignoring callee followed in preorder by a block-less call to a slot-rendering callee; distinct by canonical tree text"
+	c.Rule = "cases = call trees (forests of calls; kinds: generated callees slot/ign/twice/pass/inner/after and legacy call syntax, hand-written OnceHandle.Once, Once(WithComponent), templ.Flush, templ.Join, function components reading/ignoring children, function components capturing their children into a buffer of their own (written once, twice, discarded; hand-written and generated capture layers around a slot callee), forwarding wrappers that hand their children (wrapped, unwrapped, replaced by nothing, through a chain of two) to a generated callee with WithChildren without clearing, WithChildren from code; each with and without a block) rendered by one compiled interpreter whose dispatcher is expanded inline for 3 levels; oracle = reference call-tree semantics, exact marker structure on the HTML5 token stream; exhaustive part: every forest with <=2 nodes over all kinds, 3 nodes over all kinds but four redundant forwarders (thorough: all kinds) and over a reduced kind set (N=4, thorough); non-trivial = tree with a block given to a wrapper/ignoring callee followed in preorder by a block-less call to a slot-rendering callee; distinct by canonical tree text"
 	c.Assume("hand-written function components follow the documented protocol (GetChildren, then ClearChildren before rendering anything else)")
 	c.Assume("golang.org/x/net/html tokenizer")
 	e := build(c)
@@ -951,9 +1019,20 @@ func Run(c *core.Ctx) {
 		}
 	}
 	exh := 0
-	for n := 1; n <= 3; n++ {
+	for n := 1; n <= 2; n++ {
 		fs := enumerate(n, allKinds)
 		c.Set(fmt.Sprintf("exhaustive_trees_%d_nodes_all_kinds", n), len(fs))
+		exh += len(fs)
+		process(fs)
+	}
+	{
+		ks := threeNodeKinds()
+		if !c.Quick() {
+			ks = allKinds
+		}
+		fs := enumerate(3, ks)
+		c.Set("exhaustive_trees_3_nodes", len(fs))
+		c.Set("exhaustive_trees_3_nodes_kinds", len(ks))
 		exh += len(fs)
 		process(fs)
 	}
